@@ -65,8 +65,8 @@ CHECKS = {
         design_ref="DESIGN.md section 4, C06"),
     "C08": dict(
         level="exploration",
-        technique="deterministic simulation with storage-fault injection on durable records (byte substitution/loss/duplication/insertion, torn tail, misdirected record, field swap, NUL/non-ASCII, numeric field rewritten to an aliasing value, bytes for text); thorough tier enumerates the single-fault neighbourhood; independent field extractor as oracle",
-        text="Stored hashes of a generated user table (47-format palette incl. sun_md5_crypt, fshp, scram (also through verify(full=True)), cisco_type7, the LDAP / Django / MS-SQL / Oracle / grub / "
+        technique="deterministic simulation with storage-fault injection on durable records (byte substitution/loss/duplication/insertion, torn tail, misdirected record, field swap, NUL/non-ASCII, numeric field rewritten to an aliasing value, documented respelling, bytes for text; cold start: records written by an earlier process); thorough tier enumerates the single-fault neighbourhood; independent field extractor as oracle",
+        text="Stored hashes of a generated user table (49-format palette incl. sun_md5_crypt, fshp, scram (also through verify(full=True)), cisco_type7, bigcrypt, django_des_crypt, the LDAP / Django / MS-SQL / Oracle / grub / "
              "Atlassian families and {CRYPT}- / bcrypt$-prefixed wrappers; optional unix_disabled / plaintext at the end) are damaged the way "
              "storage damages records and pushed through the login path -- identify, verify, needs_update, verify_and_update on the bare handler "
              "and on the context, as text and bytes. identify must answer without raising; everything else answers or raises ValueError/TypeError; "
